@@ -121,8 +121,12 @@ def gen_program(rng, clock=None, n_events=None, p_cancel=0.12, p_bad=0.0,
     prog = {"clock": clock, "rep": rep, "roots": roots, "events": events}
     if initial:
         prog["initial"] = initial
-    if rng.random() < 0.1:
-        prog["custom_events"] = True       # every third event is an own SimEventInterface implementation
+    if rng.random() < 0.15:
+        # True: every third event is an own SimEventInterface implementation;
+        # "subclass": the others are objects of two SimEvent subclasses; "both"
+        prog["custom_events"] = rng.choice([True, "subclass", "subclass", "both"])
+    if clock == "float" and rng.random() < 0.15:
+        prog["int_literals"] = True        # whole numbers are passed as Python ints
     if unit:
         prog["unit"] = unit
         prog["display_unit"] = display_unit
